@@ -1069,6 +1069,11 @@ func BuildContractSet(pkgDir, mirrorDir, stdlibDir string) (*ContractSet, error)
 	cs := &ContractSet{PkgDir: pkgDir, Overlay: map[string][]byte{}}
 	matches, _ := filepath.Glob(filepath.Join(pkgDir, "verif_*.go"))
 	srcs := map[string][]byte{}
+	if os.Getenv("GOVC_PREFER_MIRROR") != "" && mirrorDir != "" {
+		if ms, _ := filepath.Glob(filepath.Join(mirrorDir, "verif_*.go")); len(ms) > 0 {
+			matches = nil // development: the mirror copy overlays the file of the tree
+		}
+	}
 	if len(matches) > 0 {
 		cs.FromRepo = true
 		for _, m := range matches {
